@@ -408,13 +408,11 @@ func (w *worker) checkTuple(c *lib.Ctx, s *shape, refFn Value, refSrc string, tu
 // absorbing element of |, which is only right for 32 bit operands, while the
 // run-time operators work on 64 bit integers.
 //
-// classWrap: constants of + - * / chains are collected, i.e. the operations
-// are re-associated; exact for integers, but the int64 fast paths of
-// OpAdd/OpSub/OpMul wrap (finding F8 of C26), so the grouping shows.
-//
-// classReassoc: the same re-association with decimal operands or a division
-// (divisors become a separately multiplied reciprocal): results differ in the
-// last digit (which can also turn an integral result into a non-integral one),
+// classReassoc: constants of + - * / chains are collected, i.e. the operations
+// are re-associated; exact for integers that stay within int64, but with
+// decimal operands, integer results that leave int64 (continuing in 16 digit
+// decimal) or a division (divisors become a separately multiplied
+// reciprocal) the results differ in the last digit (which can also turn an integral result into a non-integral one),
 // or reach a division by zero with another sign.
 //
 // classDeadOperand: a constant subexpression that raises an error when
@@ -424,7 +422,6 @@ func (w *worker) checkTuple(c *lib.Ctx, s *shape, refFn Value, refSrc string, tu
 const classAbsorb = "absorbing-constant-skips-operand-evaluation"
 const classBit32 = "bitand-bitor-fold-assumes-32-bit-operands"
 const classReassoc = "nary-arith-fold-reassociation-rounding"
-const classWrap = "nary-arith-fold-reassociation-int64-wrap"
 const classDeadOperand = "error-in-unevaluated-constant-operand-rejects-program"
 
 // classify computes the precise class of a failure ("" = unclassified)
@@ -487,20 +484,18 @@ func classify(s *shape, tuple []int, mask uint, got, ref outcome) string {
 		return classBit32
 	}
 	if has("*", "/", "+", "-") {
-		for i := range ints {
-			if ints[i] > 4.6e18 && bothValues {
-				return classWrap
-			}
-			for j := range ints {
-				if i != j && (ints[i]*ints[j] > 9.2e18 || ints[i]+ints[j] > 9.2e18) && (bothValues || has("/")) {
-					return classWrap
-				}
-			}
-		}
 		if has("/") && got.Kind == "exception" && got.Text == "can't convert number to integer" {
 			return classReassoc // an integral quotient became non-integral through the reciprocal
 		}
-		if (nonInt || has("/")) && (bothValues || got.Kind == "exception" && got.Text == "can't convert number to integer" && ref.Kind == "value") {
+		prod, sum := 1.0, 0.0
+		for _, x := range ints {
+			if x != 0 {
+				prod *= x
+			}
+			sum += x
+		}
+		overflows := prod > 9.2e18 || sum > 9.2e18 // integer arithmetic leaves int64: continues in 16 digit decimal
+		if (nonInt || has("/") || overflows) && (bothValues || got.Kind == "exception" && got.Text == "can't convert number to integer" && ref.Kind == "value") {
 			if got.Type == "Number" && ref.Type == "Number" && got.val != nil && ref.val != nil && bothValues {
 				// top-level numeric results: require that they are close (or both infinite)
 				g, r := ToDnum(got.val), ToDnum(ref.val)
@@ -511,7 +506,7 @@ func classify(s *shape, tuple []int, mask uint, got, ref outcome) string {
 					return ""
 				}
 				if r.IsZero() || dnum.Compare(dnum.Div(dnum.Sub(g, r), r).Abs(), dnum.FromStr("1e-14")) >= 0 {
-					if has("+", "-") && nonInt {
+					if has("+", "-") && (nonInt || overflows) {
 						return classReassoc // cancellation: (a + p) - a with |a| >> |p|
 					}
 					return ""
